@@ -103,7 +103,7 @@ pub fn run(ctx: &mut Ctx) {
         }
         r
     });
-    let cases = ctx.tier.pick(150_000u64, 2_000_000u64);
+    let cases = ctx.tier.pick(600_000u64, 4_000_000u64);
     ctx.pbt("c07-random", cases, 3000, |t, st| {
         let input = gen_input(t);
         check(&input, st)
